@@ -4,6 +4,7 @@ from __future__ import annotations
 import time, traceback
 import z3
 from .symexec import Interp, Unsupported, Obligation, SAdt
+from .interp2 import Interp2
 from .speceval import Val, SpecError
 from .calls import spec_bool, spec_term
 from .vc import discharge, Verdict
@@ -19,7 +20,9 @@ def lemma_instances(I, c, env, lemmas):
         lm = lemmas.get(lname)
         if lm is None:
             continue        # theorem not available in this run: the obligation will simply not discharge
-        lenv = {lv: env[p] for lv, p in mapping.items()}
+        lenv = {}
+        for lv, p in mapping.items():
+            lenv[lv] = spec_term(I, p[1:], env, lname) if p.startswith("@") else env[p]
         v = I.w.eval(_ast.parse(lm.expr, mode="eval").body, lenv, SpecFn(lname, [], "Bool", "spec"), want="Bool")
         out.append(v.v)
     return out
@@ -33,7 +36,7 @@ def verify_contract(w, src, db, c, lemmas=None, timeout_ms=10000):
 def _verify_contract(w, src, db, c, lemma_fn=None, timeout_ms=10000):
     """returns (verdicts, stats).  A function leaving the subset gives one 'unknown' verdict
     named R:<fn>:subset (never a violation)."""
-    I = Interp(w, src, db)
+    I = Interp2(w, src, db)
     short = c.name.replace("htmltools.", "")
     t0 = time.time()
     verdicts = []
@@ -70,6 +73,10 @@ def contract_obligations(I, c, lemma_fn=None):
     for p, s in c.params:
         const = I.fresh(s, p)
         args[p] = I.wrap(s, const)
+        if p in c.modifies and isinstance(args[p], SAdt):
+            args[p].fresh = True        # the function may mutate its declared `modifies` parameters
+        if c.self_class and p == "self" and isinstance(args[p], SAdt):
+            args[p].pyclass = c.self_class if s not in ("Node",) else None
         env[p] = Val(s, const)
     pre = [spec_bool(I, r, env, c.name) for r in c.requires]
     if lemma_fn is not None:
@@ -88,28 +95,42 @@ def contract_obligations(I, c, lemma_fn=None):
     obs = list(I.obligations)
     I.obligations = []
     for pi, p in enumerate(paths):
-        tag = f"R:{short}:path{pi}"
-        where = f"{c.name} decisions={''.join(map(str, p.decisions))}"
-        # which raises clause applies (first match)
-        prior = []
-        if p.outcome == "return":
-            for exc, cond in c.raises:
-                obs.append(Obligation(f"{tag}.no-{exc}", p.pc, z3.Not(spec_bool(I, cond, env, c.name)), where, "R",
-                                      f"returns normally, so `{cond}` must be false"))
-            if c.returns != "None":
-                try:
-                    rv = I.to_val(I.coerce_param(p.value, c.returns))
-                except Unsupported as ex:
-                    obs.append(Obligation(f"{tag}.result-sort", p.pc, z3.BoolVal(False), where, "R", f"result is not a {c.returns}: {ex}"))
-                    continue
-                env2 = dict(env); env2["result"] = rv
-            else:
-                env2 = env
-            for k, en in enumerate(c.ensures):
-                obs.append(Obligation(f"{tag}.ensures{k}", p.pc, spec_bool(I, en, env2, c.name), where, "R", f"postcondition `{en}`"))
-        else:
-            conds = [spec_bool(I, cond, env, c.name) for exc, cond in c.raises if exc == p.value.name]
-            goal = z3.Or(*conds) if conds else z3.BoolVal(False)
-            obs.append(Obligation(f"{tag}.raises-{p.value.name}", p.pc, goal, where, "R",
-                                  f"raises {p.value.name} at line {p.line}: must be licensed by a raises clause"))
+      with I.at_path(p):
+          tag = f"R:{short}:path{pi}"
+          where = f"{c.name} decisions={''.join(map(str, p.decisions))}"
+          # which raises clause applies (first match)
+          prior = []
+          if p.outcome == "return":
+              for exc, cond in c.raises:
+                  obs.append(Obligation(f"{tag}.no-{exc}", p.pc, z3.Not(spec_bool(I, cond, env, c.name)), where, "R",
+                                        f"returns normally, so `{cond}` must be false"))
+              if c.returns != "None":
+                  try:
+                      rv = I.to_val(I.coerce_param(p.value, c.returns))
+                  except Unsupported as ex:
+                      obs.append(Obligation(f"{tag}.result-sort", p.pc, z3.BoolVal(False), where, "R", f"result is not a {c.returns}: {ex}"))
+                      continue
+                  env2 = dict(env); env2["result"] = rv
+              else:
+                  env2 = env
+              for k, en in enumerate(c.ensures):
+                  obs.append(Obligation(f"{tag}.ensures{k}", p.pc, spec_bool(I, en, env2, c.name), where, "R", f"postcondition `{en}`"))
+              for m, pexpr in c.post.items():
+                  want = spec_term(I, pexpr, env, c.name, want=c.sort_of(m))
+                  try:
+                      got = I.to_val(I.coerce_param(p.env[m], c.sort_of(m)))
+                      obs.append(Obligation(f"{tag}.post[{m}]", p.pc, got.v == want.v, where, "R", f"state of `{m}` at return == `{pexpr}`"))
+                  except Unsupported as ex:
+                      obs.append(Obligation(f"{tag}.post[{m}]", p.pc, z3.BoolVal(False), where, "R", f"state of `{m}` at return is not a {c.sort_of(m)}: {ex}"))
+          else:
+              conds = [spec_bool(I, cond, env, c.name) for exc, cond in c.raises if exc == p.value.name]
+              goal = z3.Or(*conds) if conds else z3.BoolVal(False)
+              obs.append(Obligation(f"{tag}.raises-{p.value.name}", p.pc, goal, where, "R",
+                                    f"raises {p.value.name} at line {p.line}: must be licensed by a raises clause"))
+              for m in c.unchanged_on_raise:
+                  try:
+                      got = I.to_val(I.coerce_param(p.env[m], c.sort_of(m)))
+                      obs.append(Obligation(f"{tag}.unchanged-on-raise[{m}]", p.pc, got.v == env[m].v, where, "R", f"`{m}` is unchanged when {p.value.name} is raised"))
+                  except Unsupported as ex:
+                      obs.append(Obligation(f"{tag}.unchanged-on-raise[{m}]", p.pc, z3.BoolVal(False), where, "R", str(ex)))
     return obs
